@@ -157,12 +157,21 @@ func forbiddenTokens() []string {
 	return hits
 }
 
+// properties whose Lean targets import Gen/ScannerTable.lean
+var usesScannerTable = map[string]bool{"C01": true, "C05": true, "C14": true, "C17": true}
+
 var reAxioms = regexp.MustCompile(`(?m)^'(.+)' (depends on axioms: \[([^\]]*)\]|does not depend on any axioms)`)
 
 // obligations: extract -> lake build -> audit. Fills ctx.Cov and ctx.Broken.
 func obligations(ctx *Ctx, pc *propCheck) {
 	withLakeLock(func() {
 		for _, p := range runExtract() {
+			// a construct of the scanner outside the translated subset concerns the properties whose theorems are
+			// about the scanner table; the others do not read that table
+			if strings.HasPrefix(p, "scanner ") && !usesScannerTable[ctx.Prop] {
+				ctx.Cov.Notes = append(ctx.Cov.Notes, "translator (scanner table, not used by this property): "+p)
+				continue
+			}
 			ctx.Break("extract: " + p)
 		}
 		targets := append([]string{}, pc.lean...)
